@@ -208,6 +208,28 @@ func (in *interp) eval(fr *frame, e ast.Expr) (value, error) {
 			return in.opNot(v), nil
 		case token.ADD:
 			return in.eval(fr, x.X)
+		case token.SUB:
+			// -u on uint64 is the low word of 0 - u (two's complement); the borrow of that subtraction is [u != 0]
+			v, err := in.evalVal(fr, x.X)
+			if err != nil {
+				return nil, err
+			}
+			if c, ok := v.constant(); ok {
+				if c.Sign() == 0 {
+					return in.constInt(0), nil
+				}
+				return in.constVal(new(big.Int).Sub(bigW, c)), nil
+			}
+			t := in.opSub64(in.constInt(0), v, in.constInt(0), false, true)
+			lo, _ := t[0].(*Val)
+			if lo == nil {
+				return nil, in.unsupported(e, "unary -")
+			}
+			lo.negOf = v
+			if hi, ok := t[1].(*Val); ok {
+				lo.negBorrow = hi
+			}
+			return lo, nil
 		}
 		return nil, in.unsupported(e, "unary "+x.Op.String())
 	case *ast.BinaryExpr:
